@@ -49,7 +49,7 @@ def formula(s):
             except SyntaxError:
                 _FCACHE[s] = "syn"
             else:
-                p, q, r, ss, _d = translate.mobius_of(None, s)
+                p, q, r, ss = translate.mobius_of(None, s)[:4]
                 _FCACHE[s] = [qstr(p), qstr(q), qstr(r), qstr(ss)]
     return _FCACHE[s]
 
